@@ -18,10 +18,13 @@ MANIFEST = dict(
          "sites: the transport is closed exactly once for every guarded stack and any number of Close calls. Tied to the code on "
          "every run by an in-process frps with scripted clients (every proxy type incl. grouped ones x every termination path x "
          "every failure point, register -> terminate -> re-register identical, table sizes through build-tag accessors, OS port "
-         "probes, work connections observed closed), 30 repeated cycles, and the real wrappers around a counting net.Conn.",
+         "probes, work connections observed closed), 30 repeated cycles, the real wrappers around a counting net.Conn, and the "
+         "schedules of F-C10d replayed on the real udp proxy. Round 2: UDPProxy.Close vs the goroutines of Run for all schedules "
+         "(Model/UdpLoop.v), and the group operations (refused join changes nothing, last leave releases, join-then-leave "
+         "restores, re-join succeeds) for states reachable by any history.",
     note="Trusted: Coq kernel+VM; harness transcription; the model is hand-written and compared on every run. The theorems cover "
-         "histories without load-balancing groups; grouped tcp/http/tcpmux proxies (join, leave, last leave, refused join, empty "
-         "group shells) are modelled and checked by the correspondence only. Interleavings inside one registration are C12's "
+         "histories without load-balancing groups; grouped tcp/http/tcpmux proxies have step-level theorems (join / leave / refused "
+         "join / re-join in any reachable state) and are checked by the correspondence. Interleavings inside one registration are C12's "
          "(Model/CtlMgr.v); here the lost Add race is an oracle. Goroutine and descriptor counts over repeated cycles are runtime "
          "observations with a tolerance (labelled); yamux/quic session teardown is third-party and not modelled.",
     technique="Coq proof (inductive invariant over all operation histories and oracle values; algebraic close-propagation) + "
@@ -52,6 +55,7 @@ def recipe(c: Check):
     need(c, "release", ["NB_OK", "NB_QUOTA", "NB_EXISTS", "NB_ACQERR", "NB_LISTENFAIL", "NB_CONFLICT_ROLLBACK",
                         "NB_CONFLICT_FIRST", "NB_GROUP_REFUSED", "NB_ADDRACE", "NB_CLOSE",
                         "NB_END_WITH_PROXIES", "NB_GROUP_JOIN", "NB_GROUP_LAST_LEAVE", "NB_END_WITH_POOL"])
+    c.run_driver("udprace", q(c.tier, 4, 20), coq=False, timeout=600)
     st = c.run_driver("cycles", 30, shards=1, timeout=600)
     if st:
         c.cov["runtime_observations"] = dict(
@@ -69,7 +73,9 @@ def recipe(c: Check):
              "(state-restored claims); implementation-level checks: bystander proxy still serves, work connections of the stopped "
              "proxy are closed (with and without the server-side limiter), ports bindable again. cycles driver: 30 cycles with the "
              "same names over every kind, sizes equal after each cycle, goroutine / descriptor slope within tolerance. connwrap "
-             "driver: each real wrapper and the real http/tcp site stacks around a counting net.Conn, 1-3 Close calls. "
+             "driver: each real wrapper and the real http/tcp/client-udp site stacks around a counting net.Conn, 1-3 Close calls. udprace "
+             "driver: the three schedules of F-C10d (drop / CloseProxy right after StartWorkConn, CloseProxy with a pooled "
+             "connection) replayed on the real server: no work connection may stay open or be taken by the closed proxy. "
              "distinct = distinct case text; non-trivial = at least one successful registration (connwrap: k >= 1)",
         assumptions=["the random port choice, the outcome of net.Listen and a lost pxyManager.Add race are oracles: the harness passes "
                      "the observed values (or forces them: non-local bind address, regproxy gate), the model rejects illegal ones",
